@@ -58,9 +58,19 @@ def make_layouts(rng, pop):
     sh3 = rng.sample(late, min(12, len(late)))
     h1 = [pop[i] for i in early] + [old_version(pop[i], pop[early[(k * 5) % len(early)]]) for k, i in enumerate(sh3)]
     h2 = [pop[i] for i in late]
-    for f in (f1, f2, g1, g2, g3, h1, h2):
+    # extremes agree: the earliest and the latest stream of the first file are short ones, the long streams lie in
+    # between (a shortcut that judges a file by its minimal / maximal times must not speak for the streams inside)
+    def dur(s):
+        return s["lt"] - s["ft"]
+    fmin, fmax = min(s["ft"] for s in pop), max(s["ft"] for s in pop)
+    edge = [i for i in range(len(pop)) if dur(pop[i]) == 1 and pop[i]["ft"] in (fmin, fmax)]
+    top = max(pop[i]["lt"] for i in edge) if edge else 0
+    inner = [i for i in range(len(pop)) if dur(pop[i]) > 1 and pop[i]["lt"] <= top and i not in edge]
+    e1 = [pop[i] for i in edge + inner]
+    e2 = [pop[i] for i in range(len(pop)) if i not in edge and i not in inner]
+    for f in (f1, f2, g1, g2, g3, h1, h2, e1, e2):
         rng.shuffle(f)
-    return [one, two, [g1, g2, g3], [h1, h2]]
+    return [one, two, [g1, g2, g3], [h1, h2], [e1, e2]]
 
 
 RUNS = [
